@@ -166,6 +166,8 @@ def run_shard(shard):
         if li == 0:
             notation_family(st)
             interleaved_family(st)
+        if li == 1:
+            duplicates_family(st)
         if li == lo:
             st.sample({"lhs": ltext, "rhs": corpus.render(neighbours(lspec)[0])
                        if neighbours(lspec) else ltext, "arrays": "position",
@@ -196,6 +198,26 @@ def notation_family(st):
             for aoh in AOH:
                 check(st, ldoc, rdoc, ltext, rtext, ("notation", "notation"),
                       arrays, aoh)
+
+
+def duplicates_family(st):
+    """Lists with repeated members which also moved: every pair of lists of
+    up to three members over two scalars, and over two records."""
+    import itertools
+    for pool in (("a", "b"), (rec(1, "x"), rec(2, "y"))):
+        lists = [()]
+        for n in (1, 2, 3):
+            lists += list(itertools.product(pool, repeat=n))
+        for litems in lists:
+            for ritems in lists:
+                lspec, rspec = ("l", litems), ("l", ritems)
+                ltext, rtext = corpus.render(lspec), corpus.render(rspec)
+                ldoc, rdoc = corpus.load(ltext), corpus.load(rtext)
+                for arrays in ARRAYS:
+                    for aoh in AOH:
+                        check(st, ldoc, rdoc, ltext, rtext,
+                              ("dup%d" % len(litems), "dup%d" % len(ritems)),
+                              arrays, aoh)
 
 
 def interleaved_family(st):
